@@ -9,9 +9,12 @@
     [ordered] = strictly increasing, disjoint; [line_of] = an independent newline count.
 
     Option sets: [gen_scan_opts] is dumped from migrate.Stmts and the three drivers' ScanStmts on
-    every run; [supported] = no GO batch command (BEGIN TRY/END CATCH matching is covered). *)
+    every run; [supported] = no GO batch command (BEGIN TRY/END CATCH matching is covered).
+    Round 5: C08_total_all_options, C08_lossless_all_options_except and
+    C08_positions_all_options_except quantify over *every* value of the options record. *)
 From Coq Require Import List NArith ZArith Bool.
-From Atlas Require Import Base.Bytes Lex.LexModel Lex.LexProofs Lex.LexDrivers Lex.LexMemo gen.Gen_ScanOpts.
+From Atlas Require Import Base.Bytes Lex.LexModel Lex.LexProofs Lex.LexDirective Lex.LexDrivers Lex.LexMemo gen.Gen_ScanOpts.
+From Atlas Require Lint.LintNolintModel.
 Import ListNotations.
 Open Scope Z_scope.
 
@@ -63,6 +66,102 @@ Theorem C08_total_all_supported : forall o inp,
   supported o = true -> scan o inp <> OutOfFuel /\ scan o inp <> Panic.
 Proof. exact scan_total. Qed.
 Print Assumptions C08_total_all_supported.
+
+(** ** Round 5: every value of the options record (all 2^10 combinations, [GoCommand] included).
+    Totality needs no side condition. *)
+Theorem C08_total_all_options : forall o inp, scan o inp <> OutOfFuel /\ scan o inp <> Panic.
+Proof. exact scan_total_all. Qed.
+Print Assumptions C08_total_all_options.
+
+(** Losslessness for every option set, in the form that is true of the code: [LosslessG] is
+    [Lossless] with one more segment after each raw statement, [go] - the bytes the GO branch of
+    [stmt] consumed after cutting the text ([GO], an optional count, up to and including the end
+    of the line); [go = []] unless [GoCommand o = true]; nothing else of the input is dropped; and
+    the reported [Pos] is the true offset of the raw text *plus* [zlen go] (the exact size of the
+    error of finding C08-gocommand-pos). For [GoCommand o = false] this is [Lossless]
+    ([LexProofs.LosslessG_noGo], used for C08_lossless / C08_lossless_all_supported above). *)
+Theorem C08_lossless_all_options_except : forall o inp ss,
+  scan o inp = Ok ss ->
+  exists hdr d0 rest, inp = hdr ++ rest /\ Header inp hdr d0 /\ LosslessG o d0 (zlen hdr) rest ss.
+Proof. exact scan_losslessG. Qed.
+Print Assumptions C08_lossless_all_options_except.
+
+(** Positions and lines for every option set: each [Text] is found in the input [sh] bytes before
+    its [Pos], with [sh = 0] unless [GoCommand]; [FileReport.Line(Pos)] never panics and is the
+    line of the byte at [Pos] (with GoCommand: of the byte [sh] after the statement's first). *)
+Theorem C08_positions_all_options_except : forall o inp ss,
+  scan o inp = Ok ss ->
+  Forall (fun st => exists sh, 0 <= sh /\ (GoCommand o = false -> sh = 0) /\ TextAtShift inp sh st /\
+                    Line inp (Pos st) = Ok (line_of inp (Pos st))) ss.
+Proof. exact scan_positionsG. Qed.
+Print Assumptions C08_positions_all_options_except.
+
+(** [Stmt.Comments] (round 5). Exactly which comments a statement carries is the [GapCs] premise of
+    [LosslessG] (C08_lossless_all_options_except): starting from the empty group at the previous
+    statement (or the start of the scanned text, after the [atlas:delimiter] header line), each
+    segment of the gap [g] before the statement acts on the group - white space keeps it, a
+    terminated comment is appended unless an empty line follows it (then the group is emptied,
+    this comment included), a DELIMITER command line empties it - and [Comments st] is the group
+    left when the statement starts ([LexProofs.SegC], [GapCs]). So a file-header comment block
+    (atlas:txmode / atlas:nolint / atlas:sum / atlas:checkpoint lines) followed by an empty line is
+    never among the first statement's comments, and one followed directly by the statement is.
+    Corollary, as a plain statement: every comment of a statement is a terminated comment that
+    occurs in the input. *)
+Theorem C08_comments_are_comment_segments : forall o inp ss st c,
+  scan o inp = Ok ss -> In st ss -> In c (Comments st) -> InGap o inp c.
+Proof. exact scan_comments. Qed.
+Print Assumptions C08_comments_are_comment_segments.
+
+(** the comment-group rule itself, for one comment segment [c] = left ++ body ++ right followed by
+    white space [sp] and then [rest]: the group after it is empty iff a blank line follows. *)
+Theorem C08_comment_group_rule : forall o left body right sp rest cs,
+  index_of (body ++ right) right = Some (length body) ->
+  ((left = [45;45]%N /\ right = NL) \/ (left = [47;42]%N /\ right = [42;47]%N)
+     \/ (HashComments o = true /\ left = [35]%N /\ right = NL)) ->
+  Spaces sp -> starts_space rest = false ->
+  SegC o ((left ++ body ++ right) ++ sp) rest cs
+       (if blank_after right (sp ++ rest) then [] else cs ++ [left ++ body ++ right]).
+Proof. intros. apply SC_comment; assumption. Qed.
+Print Assumptions C08_comment_group_rule.
+
+(** ... and its instance for "--" line comments, the form of the file-header directives
+    (atlas:txmode, atlas:nolint, atlas:sum, atlas:checkpoint): after "-- body\n" followed by the
+    white space [sp], the group is empty iff [sp ++ rest] starts with a newline (an empty line
+    follows the comment), else the comment joins the group of the statement that follows. *)
+Theorem C08_line_comment_rule : forall o body sp rest cs,
+  index_of (body ++ NL) NL = Some (length body) -> Spaces sp -> starts_space rest = false ->
+  SegC o (([45;45]%N ++ body ++ NL) ++ sp) rest cs
+       (if has_prefix (sp ++ rest) NL then [] else cs ++ [[45;45]%N ++ body ++ NL]).
+Proof. exact line_comment_rule. Qed.
+Print Assumptions C08_line_comment_rule.
+
+(** Line mapping and carriage returns (round 5): [FileReport.Line(Pos)] never panics on a reported
+    [Pos] (any option set) and is 1 + the number of "\n" bytes before [Pos]; "\r" bytes are
+    transparent - "\r\n" ends a line exactly once, a lone "\r" never starts a new line (an old-Mac
+    file is one line) - and, [Pos] being a byte offset, multi-byte runes need no care (their
+    bytes are >= 0x80, never "\n"). *)
+Theorem C08_line_cr_transparent : forall o inp ss st,
+  scan o inp = Ok ss -> In st ss ->
+  Line inp (Pos st) = Ok (count_nl (strip_cr (firstn (Z.to_nat (Pos st)) inp)) + 1).
+Proof. exact scan_line_cr. Qed.
+Print Assumptions C08_line_cr_transparent.
+
+(** [Stmt.Directive(name)] (round 5; [LexDirective.Stmt_Directive] = C18's model of lex.go
+    Stmt.Directive / dir.go directive / reDirective applied to the comment group the scanner model
+    computes; tied to the real code by stage [directive]): it returns exactly the directives of the
+    statement's *own* comments - the concatenation, in order, of what each member of [Comments st]
+    yields; every result comes from a terminated comment of the input that belongs to the
+    statement's group ([GapCs]: not from a header block detached by an empty line, not from a
+    comment inside the statement text, not from another statement's comments); no comments, no
+    directives. *)
+Theorem C08_stmt_directive_own_comments : forall o inp ss st nm,
+  scan o inp = Ok ss -> In st ss ->
+  Stmt_Directive st nm = flat_map (LintNolintModel.comment_directive nm) (Comments st) /\
+  (forall d, In d (Stmt_Directive st nm) ->
+     exists c, In c (Comments st) /\ In d (LintNolintModel.comment_directive nm c) /\ InGap o inp c) /\
+  (Comments st = [] -> Stmt_Directive st nm = []).
+Proof. exact scan_stmt_directive. Qed.
+Print Assumptions C08_stmt_directive_own_comments.
 
 (** why GoCommand is excluded (no OSS driver enables it): with it the reported position is
     wrong — [Pos] of "SELECT 1" in "SELECT 1\nGO\n" is 2. Reproduced on the Go code by the tie. *)
@@ -139,6 +238,42 @@ Example C08_ex_total_nested_begins :
 Proof. vm_compute. reflexivity. Qed.
 
 (** ** non-vacuity *)
+(* round 5, comments: "-- atlas:txmode none\n\n-- c\nSELECT 1;\n-- d\n\n/* e */ SELECT 2;": the header
+   directive and "-- d" are detached by the empty line after them *)
+Definition ex_cm : bytes :=
+  [45;45;32;97;116;108;97;115;58;116;120;109;111;100;101;32;110;111;110;101;10;10;
+   45;45;32;99;10;83;69;76;69;67;84;32;49;59;10;45;45;32;100;10;10;
+   47;42;32;101;32;42;47;32;83;69;76;69;67;84;32;50;59]%N.
+Example C08_ex_comments :
+  scan opts_sqlite ex_cm =
+    Ok [mkStmt 27 [83;69;76;69;67;84;32;49;59]%N [[45;45;32;99;10]%N];
+        mkStmt 51 [83;69;76;69;67;84;32;50;59]%N [[47;42;32;101;32;42;47]%N]].
+Proof. vm_compute. reflexivity. Qed.
+(* "-- atlas:nolint\nSELECT 1;": without the empty line the directive belongs to the statement *)
+Example C08_ex_comment_attached :
+  scan opts_sqlite [45;45;32;97;116;108;97;115;58;110;111;108;105;110;116;10;83;69;76;69;67;84;32;49;59]%N =
+    Ok [mkStmt 16 [83;69;76;69;67;84;32;49;59]%N [[45;45;32;97;116;108;97;115;58;110;111;108;105;110;116;10]%N]].
+Proof. vm_compute. reflexivity. Qed.
+(* "-- atlas:nolint DS102\n\n-- atlas:nolint DS103\nSELECT 1;": only the attached directive is the statement's *)
+Example C08_ex_stmt_directive :
+  scan_directives opts_sqlite [110;111;108;105;110;116]%N
+    [45;45;32;97;116;108;97;115;58;110;111;108;105;110;116;32;68;83;49;48;50;10;10;
+     45;45;32;97;116;108;97;115;58;110;111;108;105;110;116;32;68;83;49;48;51;10;83;69;76;69;67;84;32;49;59]%N
+  = Ok [(45, [[68;83;49;48;51]%N])].
+Proof. vm_compute. reflexivity. Qed.
+(* "a;\r\nb;\rc;" : CRLF ends line 1, the lone CR does not end line 2 *)
+Example C08_ex_line_cr :
+  scan opts_sqlite [97;59;13;10;98;59;13;99;59]%N = Ok [mkStmt 0 [97;59]%N []; mkStmt 4 [98;59]%N []; mkStmt 7 [99;59]%N []] /\
+  Line [97;59;13;10;98;59;13;99;59]%N 4 = Ok 2 /\ Line [97;59;13;10;98;59;13;99;59]%N 7 = Ok 2.
+Proof. vm_compute. auto. Qed.
+(* round 5: "SELECT 1\nGO\n" with GoCommand: Pos 2 = true offset 0 + |"GO"|; every option on *)
+Definition opts_all := mkOpts true true true true true true true true true true.
+Example C08_ex_go_shift :
+  scan opts_go in_go = Ok [mkStmt 2 [83;69;76;69;67;84;32;49]%N []] /\
+  TextAtShift in_go 2 (mkStmt 2 [83;69;76;69;67;84;32;49]%N []) /\
+  scan opts_all in_go = Ok [mkStmt 2 [83;69;76;69;67;84;32;49]%N []].
+Proof. vm_compute. auto. Qed.
+
 (* "BEGIN TRY\nx;\nEND TRY\nBEGIN CATCH\ny;\nEND CATCH\nz;" with MatchBeginTryCatch: the block is one
    statement although the scanner rewinds after END CATCH *)
 Definition opts_try := mkOpts false false true false false false false false false false.
